@@ -1633,7 +1633,8 @@ func (a *fnAnalysis) remIdiom(st *rstate, x *ssa.BinOp) aval {
 	return try(mul.Y, mul.X)
 }
 
-// digitIdiom: []rune(s[i:i+1])[0] - '0' where s = fmt.Sprintf("%d", x) and x >= 0 is a digit 0..9.
+// digitIdiom: <character of s> - '0' where s = fmt.Sprintf("%d", x) or strconv.Itoa(x) and x >= 0 is a digit 0..9;
+// the character is []rune(s[i:i+1])[0], s[i] or the rune of a range over s.
 func (a *fnAnalysis) digitIdiom(st *rstate, x *ssa.BinOp) aval {
 	c, ok := x.Y.(*ssa.Const)
 	if !ok || c.Value == nil || c.Value.Kind() != constant.Int {
@@ -1642,36 +1643,73 @@ func (a *fnAnalysis) digitIdiom(st *rstate, x *ssa.BinOp) aval {
 	if k, _ := constant.Int64Val(c.Value); k != '0' {
 		return botVal()
 	}
-	ld, ok := x.X.(*ssa.UnOp)
-	if !ok || ld.Op != token.MUL {
+	// the character: []rune(s[i:i+1])[0], s[i], or the rune of `for _, c := range s` (conversions between integer types aside)
+	ch := x.X
+	for {
+		cv, isCv := ch.(*ssa.Convert)
+		if !isCv || !isIntType(cv.X.Type()) {
+			break
+		}
+		ch = cv.X
+	}
+	var str ssa.Value
+	switch y := ch.(type) {
+	case *ssa.UnOp:
+		if y.Op != token.MUL {
+			return botVal()
+		}
+		ia, ok := y.X.(*ssa.IndexAddr)
+		if !ok {
+			return botVal()
+		}
+		cv, ok := ia.X.(*ssa.Convert)
+		if !ok {
+			return botVal()
+		}
+		str = cv.X
+		if sl, ok := str.(*ssa.Slice); ok {
+			str = sl.X
+		}
+	case *ssa.Lookup:
+		if !isStringType(y.X.Type()) {
+			return botVal()
+		}
+		str = y.X
+	case *ssa.Extract:
+		nx, ok := y.Tuple.(*ssa.Next)
+		if !ok || !nx.IsString || y.Index != 2 {
+			return botVal()
+		}
+		rg, ok := nx.Iter.(*ssa.Range)
+		if !ok {
+			return botVal()
+		}
+		str = rg.X
+	default:
 		return botVal()
 	}
-	ia, ok := ld.X.(*ssa.IndexAddr)
-	if !ok {
-		return botVal()
-	}
-	cv, ok := ia.X.(*ssa.Convert)
-	if !ok {
-		return botVal()
-	}
-	sl, ok := cv.X.(*ssa.Slice)
-	if !ok {
-		return botVal()
-	}
-	call, ok := sl.X.(*ssa.Call)
+	call, ok := str.(*ssa.Call)
 	if !ok {
 		return botVal()
 	}
 	callee := call.Common().StaticCallee()
-	if callee == nil || callee.String() != "fmt.Sprintf" || len(call.Common().Args) != 2 {
+	if callee == nil {
 		return botVal()
 	}
-	f, ok := call.Common().Args[0].(*ssa.Const)
-	if !ok || f.Value == nil || f.Value.Kind() != constant.String || constant.StringVal(f.Value) != "%d" {
+	var arg []ssa.Value
+	switch callee.String() {
+	case "strconv.Itoa":
+		arg = call.Common().Args
+	case "fmt.Sprintf":
+		f, ok := call.Common().Args[0].(*ssa.Const)
+		if len(call.Common().Args) != 2 || !ok || f.Value == nil || f.Value.Kind() != constant.String || (constant.StringVal(f.Value) != "%d" && constant.StringVal(f.Value) != "%v") {
+			return botVal()
+		}
+		// the variadic argument: a slice literal holding MakeInterface(x)
+		arg = sprintfArgs(call)
+	default:
 		return botVal()
 	}
-	// the variadic argument: a slice literal holding MakeInterface(x)
-	arg := sprintfArgs(call)
 	if len(arg) != 1 || !isIntType(arg[0].Type()) {
 		return botVal()
 	}
